@@ -73,6 +73,10 @@ PROJECTS = {
     "suppressed": {
         "s.js": "// ast-grep-ignore\nfoo(1);\nfoo(2); // ast-grep-ignore: a-foo\nbar(3); // ast-grep-ignore: a-foo\n// ast-grep-ignore: b-bar, c-qux\nfoo(bar(4)); qux(5)\nfoo(6)\n",
     },
+    # (7) one pattern that matches in the HOST document and in the injected document of the same file
+    "html-both": {
+        "q.html": "<div>foo</div><script>foo</script>\n<em>foo</em><style>foo { color: red }</style>\n",
+    },
     # (5) nothing matches; neighbours of other languages that contain the text of a match
     "no-match": {
         "n.js": "let y = 1;\n",
@@ -109,6 +113,8 @@ COMMANDS_QUICK = [
     ("run-grow", ["run", "-p", "foo($A)", "-r", "foo(foo($A))", "-l", "js"]),
     # converges: a second invocation finds less and finally nothing
     ("run-eq", ["run", "-p", "$A == $B", "-r", "$A === $B", "-l", "js"]),
+    # language inferred per file: the host document and the injected documents of one .html file
+    ("run-infer-both", ["run", "-p", "foo", "-r", "foo2"]),
     # host language of .html through `run`
     ("run-html", ["run", "-p", "<div>$$$A</div>", "-r", "<section>$$$A</section>", "-l", "html"]),
 ]
